@@ -171,10 +171,14 @@ def run_case(case):
                 raise
             except BaseException as e:  # noqa: BLE001
                 exc = e
+            # the state is recorded at the moment run_forever returns - a closer thread may still be inside close()
+            open_at_return = [s_.index for s_ in net.sockets[nsock:] if not s_.closed]
+            alive_at_return = [t.name for t in sched.threads if t.state not in ("done", "new") and t.id != 0 and t is not closer]
+            app_sock_at_return = app.sock
             if closer is not None:
                 closer.join()
-            out.append({"ret": ret, "exc": exc, "trace": traces[-1], "t0": t0, "t1": sched.now, "app_sock": app.sock,
-                        "socks": net.sockets[nsock:], "alive": [t.name for t in sched.threads if t.state not in ("done", "new") and t.id != 0],
+            out.append({"ret": ret, "exc": exc, "trace": traces[-1], "t0": t0, "t1": sched.now, "app_sock": app_sock_at_return,
+                        "socks": net.sockets[nsock:], "open_at_return": open_at_return, "alive": alive_at_return,
                         "keep_running": app.keep_running})
 
     with simkit.installed(sched, net):
@@ -203,7 +207,7 @@ def run_case(case):
             obs.fail(f"{tag}|on_close-called-{len(closes)}-times", f"trace: {[e[1] for e in tr][-8:]}")
         elif closes[0] != len(tr) - 1:
             obs.fail(f"{tag}|callback-after-on_close|{tr[closes[0] + 1][1]}", f"trace tail: {[e[1] for e in tr][-6:]}")
-        left = [s.index for s in o["socks"] if not s.closed]
+        left = o["open_at_return"]
         if left:
             obs.fail(f"{tag}|socket-left-open", f"sockets {left} still open when run_forever returned")
         if o["alive"]:
@@ -286,10 +290,10 @@ def ending(draw):
         if e["in"] == "on_error":
             e["raise_in"] = "on_message"
             e["trigger"] = TRIG["on_message"]
-        e["srv_close"] = draw(st.sampled_from([["reply", 0.0], ["reply", 0.0], ["reply", 1.0], ["never"]]))
+        e["srv_close"] = draw(st.sampled_from([["reply", 0.0], ["reply", 0.0], ["reply", 1.0], ["never"], ["stream", 0.5, 2000]]))
     elif kind == "thread-close":
         e["at"] = draw(st.sampled_from([0.0, 0.05, 0.5, 1.0, 2.0, 4.0, 11.0, 20.0]))
-        e["srv_close"] = draw(st.sampled_from([["reply", 0.0], ["reply", 0.0], ["reply", 1.0], ["never"]]))
+        e["srv_close"] = draw(st.sampled_from([["reply", 0.0], ["reply", 0.0], ["reply", 1.0], ["never"], ["stream", 1.0, 1000]]))
         if draw(st.booleans()):
             e["trigger"] = {"op": rm.TEXT, "p": b"late"}
     elif kind == "kbd":
@@ -333,6 +337,23 @@ FIXED = [
 ]
 
 
+def stream_cases():
+    """The server never answers the application's close frame and keeps sending data: the run still ends."""
+    for period in (0.1, 0.5, 1.0, 2.5):
+        for secure in (False, True):
+            for ping in (None, [10, 3]):
+                base = {"secure": secure}
+                if ping:
+                    base["ping"] = ping
+                for cb in ("on_open", "on_message", "on_ping"):
+                    e = {"kind": "own-close", "in": cb, "gap": 0.5, "srv_close": ["stream", period, 5000]}
+                    if cb in TRIG:
+                        e["trigger"] = TRIG[cb]
+                    yield dict(base, runs=[{"traffic": [[0.1, [{"op": 1, "p": b"hello"}]]], "ending": e}])
+                yield dict(base, runs=[{"traffic": [[0.1, [{"op": 1, "p": b"hello"}]]], "ending": {"kind": "thread-close", "at": 1.0, "gap": 0.5, "srv_close": ["stream", period, 5000]}},
+                                       {"traffic": [], "ending": {"kind": "server-close", "code": 1000, "reason": b"", "gap": 0.5}}])
+
+
 def _count_steps(case):
     holder = {}
     orig = simkit.Sched.__init__
@@ -352,6 +373,7 @@ def _count_steps(case):
 def jobs(tier, seed):
     n, shards = (2400, 8) if tier == "quick" else (144000, 16)
     out = [{"name": f"hyp-{i}", "kind": "hyp", "seed": seed * 1000 + i, "n": n // shards} for i in range(shards)]
+    out.append({"name": "stream-after-close", "kind": "stream"})
     of = 4 if tier == "quick" else 16
     for fi in range(len(FIXED)):
         for sh in range(of):
@@ -362,6 +384,9 @@ def jobs(tier, seed):
 def run_job(job, coll):
     if job["kind"] == "hyp":
         hyp_run(coll, cases(), run_case, job["seed"], job["n"])
+    elif job["kind"] == "stream":
+        for c in stream_cases():
+            coll.check(c, run_case)
     else:
         base = FIXED[job["fixed"]]
         n_steps = _count_steps(base)
